@@ -39,18 +39,21 @@ Theorem trunc_image_decodes recs z c :
     recs = recs1 ++ recs2 /\
     decode_all [img_trunc c file] = (stored 0 recs1, v, blen (fst (encode_all 0 recs1))) /\
     (recs2 = [] \/ c < blen (fst (encode_all 0 (recs1 ++ firstn 1 recs2)))) /\
-    verdict_ok v.
+    verdict_ok v /\
+    btake (blen (fst (encode_all 0 recs1))) (img_trunc c file) = fst (encode_all 0 recs1).
 Proof.
   intros Hok Hz stream file Hc Hnc.
   assert (Hfile : blen file = blen stream + z) by (unfold file; rewrite blen_app, zeros_len; reflexivity).
   unfold img_trunc.
   destruct (N.leb_spec (blen stream) c) as [Hge|Hlt].
   - (* the cut is beyond everything written: the image is the file *)
-    exists recs, [], None. rewrite app_nil_r. split; [reflexivity|]. split; [|split; [left; reflexivity|left; reflexivity]].
     assert (E : btake c file ++ zeros (blen file - c) = stream ++ zeros z).
     { unfold file at 1. replace c with (blen stream + (c - blen stream)) at 1 by lia.
       rewrite btake_app_more, btake_zeros, <- app_assoc, zeros_app. do 2 f_equal. lia. }
-    rewrite E. apply decode_all_then; [exact Hok|].
+    rewrite E.
+    exists recs, [], None. rewrite app_nil_r. split; [reflexivity|].
+    split; [|split; [left; reflexivity|split; [left; reflexivity|apply btake_app_exact]]].
+    apply decode_all_then; [exact Hok|].
     intros f. apply loop_end_zeros. exact Hz.
   - destruct (stream_split recs 0 c Hlt) as (r1 & x & r2 & Erecs & HS1 & HS2).
     set (S1 := blen (fst (encode_all 0 r1))) in *.
@@ -90,7 +93,8 @@ Proof.
       rewrite (proj1 (encode_all_single crc1 x)). fold F. lia. }
     destruct (N.eq_dec j 0) as [Hj0|Hj0].
     + (* the cut is at the frame boundary *)
-      exists r1, (x :: r2), None. split; [exact Erecs|]. split; [|split; [right; exact Hnext|left; reflexivity]].
+      exists r1, (x :: r2), None. split; [exact Erecs|].
+      split; [|split; [right; exact Hnext|split; [left; reflexivity|apply btake_app_exact]]].
       rewrite Hj0. replace (btake 0 F) with (@nil N) by (destruct F; reflexivity). cbn [app].
       apply decode_all_then; [exact Hok1|]. intros f. apply loop_end_zeros. right. lia.
     + destruct (N.ltb_spec j 8) as [Hj8|Hj8].
@@ -99,7 +103,7 @@ Proof.
         { rewrite HF. apply btake_app_le. rewrite le64_blen. lia. }
         rewrite Hbt.
         destruct (loop_partial_len n j M S1 crc1 ltac:(lia) ltac:(lia) ltac:(lia)) as (v & Hv & Hl).
-        exists r1, (x :: r2), v. split; [exact Erecs|]. split; [|split; [right; exact Hnext|]].
+        exists r1, (x :: r2), v. split; [exact Erecs|]. split; [|split; [right; exact Hnext|split; [|apply btake_app_exact]]].
         -- apply decode_all_then; [exact Hok1|]. exact Hl.
         -- destruct Hv as [->| ->]; unfold verdict_ok; auto.
       * (* inside the frame body *)
@@ -128,7 +132,7 @@ Proof.
            split; [rewrite <- app_assoc; exact Erecs|].
            assert (Henc : fst (encode_all 0 (r1 ++ [x])) = fst (encode_all 0 r1) ++ F).
            { rewrite encode_all_app. cbn [fst]. fold crc1. now rewrite (proj1 (encode_all_single crc1 x)). }
-           split; [|split; [|left; reflexivity]].
+           split; [|split; [|split; [left; reflexivity|rewrite app_assoc, <- Henc; apply btake_app_exact]]].
            ++ rewrite app_assoc, <- Henc. apply decode_all_then.
               ** apply Forall_app. split; [exact Hok1|]. constructor; [exact Hokx|constructor].
               ** intros f. apply loop_end_zeros. exact HM'.
@@ -136,7 +140,7 @@ Proof.
               cbn [firstn]. rewrite blen_encode_app, Henc, blen_app. fold S1. lia.
         -- fold p n in Hrej.
            destruct (loop_not_accepted n (torn_body crc1 x j) (zeros M') S1 crc1 ltac:(lia) Htblen Hrej) as (e & He & Hl).
-           exists r1, (x :: r2), (Some e). split; [exact Erecs|]. split; [|split; [right; exact Hnext|]].
+           exists r1, (x :: r2), (Some e). split; [exact Erecs|]. split; [|split; [right; exact Hnext|split; [|apply btake_app_exact]]].
            ++ apply decode_all_then; [exact Hok1|]. exact Hl.
            ++ unfold verdict_ok. destruct He as [->|[->| ->]]; auto.
 Qed.
@@ -158,4 +162,29 @@ Proof.
   pose proof (decode_all_prefix_stable recs junk 0 zero_lt32 Hok _ (scan_fuel_single _)) as H.
   match type of H with _ = match ?X with _ => _ end => destruct X as [[rs v] off] end.
   exists rs, v, off. exact H.
+Qed.
+
+(* (d) any damage, not only a cut: the image agrees with the written stream up to the start of a frame;
+   that frame's length field is either zeroed (a whole sector was lost) or intact with a body the decoder
+   does not accept (the named NoCrcCollision hypothesis for this image). Then decoding stops there:
+   exactly the records before the damaged frame are returned, whatever follows. *)
+Theorem damaged_frame_stops_decoding recs1 x junk :
+  Forall enc_ok recs1 -> enc_ok x ->
+  let crc1 := snd (encode_all 0 recs1) in
+  let n := blen (payload_of crc1 x) in
+  ((exists t, junk = zeros 8 ++ t) \/
+   (exists body' t, junk = le64 (frame_len_field n) ++ body' ++ t /\ blen body' = n + frame_pad n /\
+                    accepts crc1 n body' = false)) ->
+  exists v, decode_all [fst (encode_all 0 recs1) ++ junk] = (stored 0 recs1, v, blen (fst (encode_all 0 recs1)))
+            /\ verdict_ok v.
+Proof.
+  intros Hok Hx crc1 n Hj.
+  assert (Hcrc1 : crc1 < 2 ^ 32) by (apply encode_all_crc_lt; [reflexivity|exact Hok]).
+  pose proof (payload_len_ok crc1 x Hcrc1 Hx) as Hn. fold n in Hn.
+  destruct Hj as [(t & ->)|(body' & t & -> & Hb & Ha)].
+  - exists None. split; [|left; reflexivity].
+    apply decode_all_then; [exact Hok|]. intros f. apply decode_all_loop_end_zeros. lia.
+  - destruct (loop_not_accepted n body' t (blen (fst (encode_all 0 recs1))) crc1 Hn Hb Ha) as (e & He & Hl).
+    exists (Some e). split; [apply decode_all_then; [exact Hok|exact Hl]|].
+    unfold verdict_ok. destruct He as [->|[->| ->]]; auto.
 Qed.
